@@ -200,13 +200,15 @@ theorem walkLoop_team_fit (e : Env) (wf : WF e) (t : Nat) (sel placed : List Nat
             rw [walkLoop_before e t f _ _ m w.cur (by rw [hcur2]; omega), scheduleSlot_same e σ t w t' hne m w.cur]
             exact h1
         · have hin2 : WalkIn e (advance true w (scheduleSlot e σ t w).2.1) := by
-            refine ⟨?_, ?_⟩
+            refine ⟨?_, ?_, ?_⟩
             · simp only [Bool.or_eq_true, decide_eq_true_eq, not_or, Int.not_lt] at hout
               exact hout.1
             · show (0 : Rat) ≤ (e.G : Rat) - 1 / 1000000
               have : (1 : Int) ≤ e.G := wf.G_pos
               have : (1 : Rat) ≤ (e.G : Rat) := by exact_mod_cast this
               grind
+            · simp only [Bool.or_eq_true, decide_eq_true_eq, not_or, Int.not_lt] at hout
+              exact hout.2
           exact ih (scheduleSlot e σ t w).1 (advance true w (scheduleSlot e σ t w).2.1) (w.cur :: vis) hsi.1 hss
             (walkOk_advance e t wf _ _ _ hw1) hin2 (selectedOf_some e _ t _ sel hsel') hts'
             (fun r i hi => by
@@ -263,9 +265,8 @@ theorem scheduleTask_team_fit (e : Env) (wf : WF e) (σ : St) (t : Nat) (sel pla
     have hw : WalkOk e t { cur := (initCursor e σ t).1, offset := (initCursor e σ t).2 } :=
       ⟨hoff.1, hoff.2, wf.effort_nonneg t⟩
     have hin : WalkIn e { cur := (initCursor e σ t).1, offset := (initCursor e σ t).2 } := by
-      refine ⟨?_, initCursor_room e σ t wf⟩
       simp only [Bool.or_eq_true, decide_eq_true_eq, not_or, Int.not_lt] at hout
-      exact hout.1
+      exact ⟨hout.1, initCursor_room e σ t wf, hout.2⟩
     have hts : TS (σ.setT t (σ.tst t)) t sel true { cur := (initCursor e σ t).1, offset := (initCursor e σ t).2 } [] :=
       ⟨fun r _ i _ => hclean r i, fun i hi => absurd hi List.not_mem_nil,
         fun r _ r' _ i => by
